@@ -16,10 +16,14 @@ CLAIMED = {
          'ordering obligations O1-O7 + phase rule at every backend write on every path, closed over all API histories; crash images themselves not decided', 'C04'),
  'C05': ('must-pass-through / typestate over the async call graph + sibling check of the fsync implementations',
          'fsync_range reaches the barrier, every backend fsync reaches a sync primitive, flush_meta complete on every Ok path, slices written whole and only after zero-once resolution; per-block crash values not decided', 'C05'),
+ 'C06': ('held-lock dataflow at request creation/poll, guard provenance of decisions and mutations (critical-section rules)',
+         'linearizability over schedules is NOT decided; decided are necessary critical-section conditions: check-then-act under one slice write guard, requests created under the per-cluster guard complete under it, COW merge under per-cluster and L2 slice write guards, eviction prefers unused entries', 'C06'),
  'C07': ('held-lock dataflow, mode-aware lock-order cycle search, guard-across-await scan, insert/lookup typestate',
          'deadlock clause: lock-order relation acyclic (mode aware, one thread per device), no self re-acquisition, no blocking guard across awaits, no suspension between cache insert and re-lookup; livelock/termination not decided', 'C07'),
  'C17': ('error-value def-use discipline + restore/undo typestate in the fault model',
          'no dropped Qcow2Result; flags/queue entries restored on error exits; rollback and zero-write fallback on failing requests; state after retries not decided', 'C17'),
+ 'C08': ('guard provenance + no-suspension scan/increment rule, control/data dependence of the free-hint updates, path-sensitive run-restart pairing',
+         'scan+increment atomic under one guard, allocated range derives from the scan, hint updates guarded, release decided under the unmapping guard, run start re-established on restart; numeric ownership not decided', 'C08'),
  'C10': ('guarded reachability (read-only test / dirty-token gates as path facts over the async call graph), dominance and provenance rules',
          'every primary modifying effect lies behind a read-only test or a dirty-token test on every path from every public method; backing devices forced read-only; only reads on the backing receiver; COW structural conditions; byte-level merge not decided', 'C10'),
  'C13': ('dominance of validation checks over every suspension point + flow-aware data-dependence slices (taint of raw arguments into overflow-checked arithmetic)',
